@@ -893,6 +893,8 @@ fn scan_trivia(source: &str) -> Vec<Scanned> {
     let mut escaped = false;
     let mut line_start = 0usize;
     let mut line_blank = true;
+    // Whether a line with code or a comment has been seen yet.
+    let mut seen_content = false;
     while let Some((index, c)) = chars.next() {
         if in_string {
             match c {
@@ -911,9 +913,13 @@ fn scan_trivia(source: &str) -> Vec<Scanned> {
         }
         match c {
             '\n' => {
-                if line_blank {
+                // Blank lines before the first code or comment are not trivia: `collapse_blanks`
+                // drops them from the output, so attaching one to the first node would force a
+                // break on this pass that the next pass (which no longer sees the blank) undoes.
+                if line_blank && seen_content {
                     out.push(Scanned::Blank(line_start));
                 }
+                seen_content |= !line_blank;
                 line_start = index + 1;
                 line_blank = true;
             }
